@@ -40,9 +40,17 @@ class Fn:
         self.debug = {}         # source-level variable name -> [local numbers] (in declaration order)
 
 
+class FnTable(dict):
+    """{full fn name: Fn} plus the one-line constant items of the dump (`const X: T = const V;`)."""
+
+    def __init__(self):
+        super().__init__()
+        self.const_values = {}
+
+
 def parse_mir(path):
     """Parse the whole dump: {full fn name: Fn}."""
-    fns = {}
+    fns = FnTable()
     cur = None
     bb = None
     with open(path) as f:
@@ -50,6 +58,9 @@ def parse_mir(path):
             if line.startswith("fn ") or line.startswith("const ") or line.startswith("static "):
                 if not line.startswith("fn "):
                     cur = None
+                    vm = re.match(r"const (.*?): [^=]* = (const [^;]*);$", line.rstrip("\n"))
+                    if vm:
+                        fns.const_values[vm.group(1)] = vm.group(2)
                     cm = re.match(r"const (.*promoted\[\d+\]): (.*) = \{$", line.rstrip("\n"))
                     if cm:
                         cur = Fn("const:" + cm.group(1), line.rstrip("\n"))
